@@ -21,7 +21,10 @@ def _step_build(op):
         rl.check(expected)
         b = {'c_sources': [os.path.join(CONTRACTS, 'vm_step.c')], 'cxx_sources': [os.path.join(gw, name)],
              'entry': 'h_step', 'enforce': [f'w_executeSingle/c_step_{op}'], 'dropped': DROPPED_VM,
-             'min_obligations': 50}
+             'min_obligations': 50,
+             # the cases are loop-free (PREPARE's loop has a loop contract); a loop introduced by a change is unwound a few
+             # times so that the run terminates: its effects then fail the contract, or the unwinding assertion fails
+             'cbmc_extra': ['--unwind', '12']}
         if op == 'PREPARE_EXEC':
             b['loops_tpl'] = os.path.join(CONTRACTS, 'vm_step.loops.json.in')
         return b
@@ -58,7 +61,7 @@ def _execute_build(gw, rl):
 DBG_PROPS = ['C05', 'C06', 'C17', 'C18']
 
 
-def _dbg_build(fn, loops=False, redirect=False, cdefs=()):
+def _dbg_build(fn, loops=False, redirect=False, cdefs=(), unwind=None):
     def build(gw, rl):
         vmunit.vm_mirror(gw)
         name, expected = vmunit.build_dbg_unit(gw, rl, reset_redirect=redirect)
@@ -70,6 +73,8 @@ def _dbg_build(fn, loops=False, redirect=False, cdefs=()):
             b['replace'] = ['w_clearBreakpoints/c_clearBreakpoints']
         if loops:
             b['loops_tpl'] = os.path.join(CONTRACTS, 'vm_dbg.loops.json.in')
+        if unwind:
+            b['cbmc_extra'] = ['--unwind', str(unwind)]
         return b
     return build
 
@@ -97,8 +102,13 @@ def groups():
                         f'Theo::VM::{fn} (VM/src/vm.cpp)', 'c_' + fn, _dbg_build(fn), timeout=600))
     gs.append(Group('dbg_reset', DBG_PROPS + ['C19'], 'Theo::VM::reset (VM/src/vm.cpp)', 'c_reset', _dbg_build('reset', redirect=True),
                     timeout=600, note='callee clearBreakpoints replaced by its contract c_clearBreakpoints'))
-    gs.append(Group('dbg_clearBreakpoints', DBG_PROPS, 'Theo::VM::clearBreakpoints (VM/src/vm.cpp)', 'c_clearBreakpoints',
-                    _dbg_build('clearBreakpoints', loops=True), timeout=3600, expect_loops=1, tier='thorough'))
-    gs.append(Group('dbg_setBreakPoint', DBG_PROPS + ['C08'], 'Theo::VM::setBreakPoint (VM/src/vm.cpp)', 'c_setBreakPoint',
-                    _dbg_build('setBreakPoint', loops=True), timeout=3600, expect_loops=1, tier='thorough'))
+    BND = 'BOUNDED in the number of table entries only: potential_breaks and enabled_breakpoints hold at most %d entries (constant-size arrays); site lists (loop contracts), program, data and stack sizes stay symbolic and unbounded'
+    BNDU = ('BOUNDED stand-in: at most 2 locations in potential_breaks, at most 2 enabled locations, at most 2 sites per location, '
+            'at most 8 instructions, --unwind 3 --unwinding-assertions (nested loop contracts, and symbolic-size code arrays under nested unwinding, exhaust the solver memory); data and stack sizes stay symbolic')
+    gs.append(Group('dbgU_clearBreakpoints', DBG_PROPS, 'Theo::VM::clearBreakpoints (VM/src/vm.cpp)', 'c_clearBreakpoints',
+                    _dbg_build('clearBreakpoints', cdefs=['TBL_CAP=2', 'LIST_CAP=2', 'CODE_CAP=8', 'CLEAR_COMPLETE'], unwind=3), timeout=1800, bounded=BNDU))
+    for K, tier in ((8, 'quick'), (16, 'thorough')):
+        sfx = '' if tier == 'quick' else f'_K{K}'
+        gs.append(Group('dbgB_setBreakPoint' + sfx, DBG_PROPS + ['C08'], 'Theo::VM::setBreakPoint (VM/src/vm.cpp)', 'c_setBreakPoint',
+                        _dbg_build('setBreakPoint', loops=True, cdefs=[f'TBL_CAP={K}']), timeout=1800, expect_loops=1, tier=tier, bounded=BND % K))
     return gs
